@@ -79,6 +79,7 @@ func (op *WOp) Exec(db *gorm.DB) (res Result) {
 		vals := make([]fam.User, len(us))
 		for i, u := range us {
 			vals[i] = *u
+			fam.Repoint(u, &vals[i])
 		}
 		for i := range vals {
 			res.Roots = append(res.Roots, &vals[i])
@@ -197,6 +198,11 @@ func GenWOp(r *core.Rand, kinds []string) WOp {
 			op.Share = true
 			co := &fam.CompanySpec{ID: 7000 + uint(r.Intn(3)), Name: "shared-co"}
 			fr := fam.UserSpec{ID: 8000 + uint(r.Intn(3)), Name: "shared-friend"}
+			if r.Chance(35) {
+				// the shared records are new: no key yet
+				co = &fam.CompanySpec{Name: fam.SharedNewPrefix + "co"}
+				fr = fam.UserSpec{Name: fam.SharedNewPrefix + "friend"}
+			}
 			for i := range op.Users {
 				if r.Chance(70) {
 					op.Users[i].Company = co
